@@ -1779,7 +1779,8 @@ def builder_roles(ctx):
         elif "TropicalGraph" in cb.local_ty(0):
             fg = cb
     if fg is None or tb is None:
-        raise RoleLost("from_graph / table_builder: the two callees of build_sampler")
+        from ..roles import builds_adt
+        raise RoleLost("from_graph / table_builder: the two callees of build_sampler", wanted=builds_adt("SampleGenerator"))
     jrec = None
     for bi, t, cb in R.local_callees(tb):
         bodies = [cb] + list(ctx.facts.closures_of(cb.path))
